@@ -485,6 +485,11 @@ def zone_menu():
                         ('tzfile-syn-other-names', [1, 0, 1, 0], [(-18000, 0, 'XST'), (-14400, 1, 'XDT')]),
                         ('tzfile-syn-other-offsets', [1, 0, 1, 0], [(-18000, 0, 'EST'), (-12600, 1, 'EDT')])):
         zs.append((nm, tz.tzfile(io.BytesIO(tzif_ref.encode(T, idx, tt)), filename=nm)))
+    # fixed zones (no transitions) with one abbreviation and different offsets; a standard-time change to different offsets
+    zs.append(('tzfile-syn-fixed-1h', tz.tzfile(io.BytesIO(tzif_ref.encode([], [], [(3600, 0, 'AAA')])), filename='fixed-1h')))
+    zs.append(('tzfile-syn-fixed-2h', tz.tzfile(io.BytesIO(tzif_ref.encode([], [], [(7200, 0, 'AAA')])), filename='fixed-2h')))
+    zs.append(('tzfile-syn-std-change-a', tz.tzfile(io.BytesIO(tzif_ref.encode(T[:1], [1], [(3600, 0, 'AAA'), (7200, 0, 'BBB')])), filename='chg-a')))
+    zs.append(('tzfile-syn-std-change-b', tz.tzfile(io.BytesIO(tzif_ref.encode(T[:1], [1], [(3600, 0, 'AAA'), (10800, 0, 'BBB')])), filename='chg-b')))
     # two different data sets under one file name (two tzdata releases, a file rewritten between two loads)
     zs.append(('tzfile-syn-same-name-1', tz.tzfile(io.BytesIO(tzif_ref.encode(T, [1, 0, 1, 0], types)), filename='Same/Name')))
     zs.append(('tzfile-syn-same-name-2', tz.tzfile(io.BytesIO(tzif_ref.encode(T, [1, 0, 1, 0], [(-18000, 0, 'EST'), (-10800, 1, 'EDT')])),
@@ -564,6 +569,24 @@ def near_keys():
     return P
 
 
+def eval_empty_name(case):
+    """gettz('') - the empty name - while TZ names a zone file: two requests, the first object still referenced"""
+    from dateutil import tz
+    from props import posixmenu as pm
+    warnings.simplefilter('ignore')
+    viols = []
+    with pm.tz_env(case):
+        tz.gettz.cache_clear()
+        a = tz.gettz('')
+        b = tz.gettz('')
+        if a is None or isinstance(a, tz.tzlocal):
+            return Res(outcome='resolves-to-tzlocal-not-judged', nontrivial=False)     # tzlocal results are documented as uncached
+        if a is not b:
+            viols.append({'kind': 'two-live-objects-for-one-key', 'factory': 'gettz', 'scenario': "gettz('') under TZ=%s" % case})
+        tz.gettz.cache_clear()
+    return Res(trans=2, viols=viols)
+
+
 def eval_near(case):
     """request a, then b while a is alive (and the other way round, and a-b-a): each object must behave as a freshly
     constructed zone of ITS OWN request does, and a repeated request returns the first object"""
@@ -631,6 +654,8 @@ def replay(part, case):
         return eval_history(tuple(case)).viols
     if part == 'dfs-guard':
         return eval_dfs_guard(tuple(case)).viols
+    if part == 'empty-name':
+        return eval_empty_name(case).viols
     if part == 'near-keys':
         return eval_near((case[0], tuple(case[1]) if not isinstance(case[1], str) else case[1],
                           tuple(case[2]) if not isinstance(case[2], str) else case[2])).viols
@@ -669,6 +694,7 @@ def run(ctx):
             sched.append((kind, aba, 2, 200000))
     ctx.explore('schedules', sched, 'eval_schedule', chunk=1)
     ctx.explore('near-keys', near_keys(), 'eval_near', serial=True)
+    ctx.explore('empty-name', ['Europe/London', ':America/New_York', 'Asia/Tokyo'], 'eval_empty_name', serial=True)
     ctx.explore('value-semantics', [0], 'eval_values', serial=True)
     ctx.coverage_extra.update({
         'states': ctx.counts['states'],
